@@ -47,6 +47,7 @@ import (
 
 	"github.com/cloudwego/hertz/internal/bytesconv"
 	hJson "github.com/cloudwego/hertz/pkg/common/json"
+	"github.com/cloudwego/hertz/pkg/common/verifhook"
 )
 
 type TextDecoder interface {
@@ -101,6 +102,7 @@ func (d *boolDecoder) UnmarshalString(s string, fieldValue reflect.Value, looseZ
 		return err
 	}
 	fieldValue.SetBool(v)
+	verifhook.Yield("bind.text", nil)
 	return nil
 }
 
@@ -117,6 +119,7 @@ func (d *floatDecoder) UnmarshalString(s string, fieldValue reflect.Value, loose
 		return err
 	}
 	fieldValue.SetFloat(v)
+	verifhook.Yield("bind.text", nil)
 	return nil
 }
 
@@ -133,6 +136,7 @@ func (d *intDecoder) UnmarshalString(s string, fieldValue reflect.Value, looseZe
 		return err
 	}
 	fieldValue.SetInt(v)
+	verifhook.Yield("bind.text", nil)
 	return nil
 }
 
@@ -140,6 +144,7 @@ type stringDecoder struct{}
 
 func (d *stringDecoder) UnmarshalString(s string, fieldValue reflect.Value, looseZeroMode bool) error {
 	fieldValue.SetString(s)
+	verifhook.Yield("bind.text", nil)
 	return nil
 }
 
@@ -156,6 +161,7 @@ func (d *uintDecoder) UnmarshalString(s string, fieldValue reflect.Value, looseZ
 		return err
 	}
 	fieldValue.SetUint(v)
+	verifhook.Yield("bind.text", nil)
 	return nil
 }
 
